@@ -53,6 +53,7 @@ Definition producer_eqb (p q : producer) : bool :=
   | PTop n a, PTop n' a' => (n =? n') && (a =? a')
   | PSkip n a, PSkip n' a' => (n =? n') && (a =? a')
   | PGuard v a, PGuard v' a' => Z.eqb v v' && (a =? a')
+  | PStage st a b, PStage st' a' b' => stage_eqb st st' && (a =? a') && (b =? b')
   | _, _ => false
   end.
 
